@@ -145,6 +145,8 @@ func cmdCheck(args []string) int {
 		}
 	}
 	start := time.Now()
+	restore := guardGoSums()
+	defer restore()
 	run := &checkRun{id: id, tier: *tier, seed: seed, spec: &spec, verbose: *verbose, workers: *workers, noReplay: *noReplay, trace: *trace}
 	for i := range spec.Units {
 		u := &spec.Units[i]
@@ -161,7 +163,9 @@ func cmdCheck(args []string) int {
 		run.runUnit(u, ts)
 	}
 	run.wall = time.Since(start)
-	return run.finish(len(sel) > 0)
+	rc := run.finish(len(sel) > 0)
+	restore()
+	return rc
 }
 
 func mergeTier(q, t TierSpec) TierSpec {
@@ -391,5 +395,41 @@ func printReport(f *os.File, id string, res *unitResult) {
 			continue
 		}
 		fmt.Fprintf(f, "    VIOLATION-CANDIDATE %s %s: %s model=%v\n", v.Kind, v.Label, v.Msg, v.Model)
+	}
+}
+
+// guardGoSums remembers the content of every go.mod/go.sum that the go tool might rewrite under
+// -mod=mod and returns a function restoring any that changed (the checks must not modify /repo).
+func guardGoSums() func() {
+	saved := map[string][]byte{}
+	filepath.Walk(repoRoot, func(path string, info os.FileInfo, err error) error {
+		if err != nil {
+			return nil
+		}
+		if info.IsDir() {
+			if n := info.Name(); n == ".git" || n == "node_modules" {
+				return filepath.SkipDir
+			}
+			return nil
+		}
+		if n := info.Name(); n == "go.sum" || n == "go.mod" {
+			if b, err := os.ReadFile(path); err == nil {
+				saved[path] = b
+			}
+		}
+		return nil
+	})
+	done := false
+	return func() {
+		if done {
+			return
+		}
+		done = true
+		for p, b := range saved {
+			cur, err := os.ReadFile(p)
+			if err != nil || string(cur) != string(b) {
+				os.WriteFile(p, b, 0o644)
+			}
+		}
 	}
 }
